@@ -590,7 +590,7 @@ impl fmt::Display for Exp {
             Exp::Number(value) if *value == f64::INFINITY => "Infinity".to_string(),
             Exp::Number(value) if *value == f64::NEG_INFINITY => "MinusInfinity".to_string(),
             Exp::Number(value) => value.to_string(),
-            Exp::Variable(name) => name.clone(),
+            Exp::Variable(name) => crate::parser::il::il_exp::written_name(name),
             Exp::Abs(exp) => format!("abs{{ {} }}", exp),
             Exp::And(exps) => exps
                 .iter()
